@@ -232,9 +232,25 @@ pub trait PathImpl: 'static {
 			Self::EMPTY.to_path_buf()
 		};
 
-		let mut open = false;
-		for segment in self.segments() {
-			open = result.as_path_mut().symbolic_push(segment)
+		// A final dot segment leaves a trailing `/`.
+		let open = matches!(
+			self.last().map(SegmentImpl::as_bytes),
+			Some(CURRENT_SEGMENT) | Some(PARENT_SEGMENT)
+		);
+
+		let mut count = 0;
+		let mut last_is_empty = false;
+		for segment in self.normalized_segments() {
+			count += 1;
+			last_is_empty = segment.is_empty();
+		}
+
+		if open || !(count == 1 && last_is_empty) {
+			// (otherwise a single empty segment is all that is left, which is
+			// the directory itself: `/./` is `/`)
+			for segment in self.normalized_segments() {
+				result.as_path_mut().push(segment)
+			}
 		}
 
 		if open && !result.is_empty() {
